@@ -292,7 +292,9 @@ impl<T> ClientRuntimeState<T> where T : Read + Write + Send + Sync {
                 }
             }
 
-            if flush_pending {
+            // service may have produced more bytes since the flush became pending (an operation that did not fit the
+            // buffer continues); the write is complete only when those have been handed to the stream as well
+            if flush_pending && outbound_data.is_empty() {
                 let flush_result = stream.flush();
                 match flush_result {
                     Ok(()) => {
